@@ -1,6 +1,7 @@
 import GBProofs.Props.C16
 import GBProofs.Layout
 import GBProofs.SphericalNorm
+import GBProofs.ArrayDefiniteness
 /-!
 # C01 / C07 — documented layout and "asymmetric = block of the union"
 `Layout.lean`: `locate_offset` / `locate_lt` (basis index ↔ (shell, segment, function): shell, then
